@@ -47,7 +47,7 @@ Section Indep.
     K_vi_solve M g eps n mb d padval padidx t ckpt freq k st = S_vi_solve M g eps t ckpt freq k st.
   Proof.
     unfold K_vi_solve, S_vi_solve, vi_solve. apply solve_gen_ext.
-    - intros s. unfold vi_step. fold SWk. now rewrite SW_eq.
+    - intros s. unfold vi_step, vi_sweep_step. fold SWk. now rewrite SW_eq.
     - intros b s. unfold vi_finish. fold POLk. now rewrite POL_eq.
   Qed.
 
@@ -55,7 +55,7 @@ Section Indep.
     K_rvi_solve M g eps n mb d padval padidx ckpt freq k st = S_rvi_solve M g eps ckpt freq k st.
   Proof.
     unfold K_rvi_solve, S_rvi_solve, rvi_solve. apply solve_gen_ext.
-    - intros s. unfold rvi_step. fold SWk. now rewrite SW_eq.
+    - intros s. unfold rvi_step, rvi_sweep_step. fold SWk. now rewrite SW_eq.
     - intros b s. unfold rvi_finish. fold POLk. now rewrite POL_eq.
   Qed.
 
@@ -63,7 +63,7 @@ Section Indep.
     K_pvi_solve M g eps n mb d padval padidx clear ckpt freq k st = S_pvi_solve M g eps clear ckpt freq k st.
   Proof.
     unfold K_pvi_solve, S_pvi_solve, pvi_solve. apply solve_gen_ext.
-    - intros s. unfold pvi_step. fold SWk. now rewrite SW_eq.
+    - intros s. unfold pvi_step, pvi_sweep_step. fold SWk. now rewrite SW_eq.
     - intros b s. unfold pvi_finish. fold POLk. now rewrite POL_eq.
   Qed.
 
@@ -79,8 +79,8 @@ Section Indep.
     S_pi_solve M g eps t max_eval reset V0 ckpt freq k st.
   Proof.
     unfold K_pi_solve, S_pi_solve, pi_solve. apply solve_gen_ext.
-    - intros s. unfold pi_step. fold EVk POLk. rewrite eval_loop_layout_free.
-      destruct (eval_loop g eps (sweep_pi M g) t max_eval (pi_pol s) (if reset then V0 else pi_vals s)) as [vals ok].
+    - intros s. unfold pi_step, pi_improve_step. fold EVk POLk. rewrite eval_loop_layout_free.
+      destruct (eval_loop g eps (sweep_pi M g) t max_eval (pi_pol (pi_incr s)) (if reset then V0 else pi_vals (pi_incr s))) as [vals ok].
       now rewrite POL_eq.
     - reflexivity.
   Qed.
